@@ -147,6 +147,11 @@ def doc_blocks(an):
 def check_document(text, acc, origin):
     """Apply every transformation at every admissible position of one base document."""
     if '\r' in text.replace('\r\n', ''):
+        # a carriage return that ends no line: the layout transformations are not defined for it, but file-versus-string still is
+        base = run_text(text, acc)
+        acc.n += 1
+        if base[0] != 'exc':
+            file_route(text, base, acc, origin)
         return
     an = analyse(text)
     if an is None:
@@ -299,7 +304,11 @@ def check_document(text, acc, origin):
         l2 = lines[:i - 1] + ['  # zz-inserted'] + lines[i - 1:]
         exp = map_result(base, fline=lambda l, i=i: l + 1 if l >= i else l)
         compare('comment-line', join(l2, an['final_nl']), exp, i, project_comment=(i, '  # zz-inserted'))
-    # file instead of string
+    file_route(text, base, acc, origin)
+
+
+def file_route(text, base, acc, origin):
+    """File instead of string: TokenScanner(path) and source_event(path) against the same text given as a string."""
     tmp = tempfile.mkdtemp(prefix='c16-')
     try:
         path = os.path.join(tmp, 'doc.feature')
